@@ -802,5 +802,7 @@ func c13Controls() []core.Mutant {
 		{Name: "unary plus folded away for any operand", File: "optimizer/fold.go", Old: "\t\tcase \"+\":\n\t\t\tif i, ok := n.Node.(*IntegerNode); ok && plain(i) {", New: "\t\tcase \"+\":\n\t\t\tif _, isInt := n.Node.(*IntegerNode); !isInt {\n\t\t\t\tpatchWithType(n.Node, n.Node.Type())\n\t\t\t\treturn\n\t\t\t}\n\t\t\tif i, ok := n.Node.(*IntegerNode); ok && plain(i) {", Rule: "R13.7", Construct: "fold"},
 		{Name: "inRange comparison loses its location", File: "optimizer/in_range.go", Old: "\t\t\t\t\t\tge.SetLocation(n.Location())\n", New: "", Rule: "R13.2", Construct: "inRange"},
 		{Name: "node stack not popped", File: "compiler/compiler.go", Old: "\tdefer func() {\n\t\tc.nodes = c.nodes[:len(c.nodes)-1]\n\t}()\n", New: "", Rule: "R13.6", Construct: "node stack"},
+		{Name: "recover handler passes a recovered *file.Error through", File: "vm/vm.go", Old: "\t\tif r := recover(); r != nil {\n\t\t\tf := &file.Error{", New: "\t\tif r := recover(); r != nil {\n\t\t\tif fe, ok := r.(*file.Error); ok {\n\t\t\t\terr = fe\n\t\t\t\treturn\n\t\t\t}\n\t\t\tf := &file.Error{", Rule: "R13.6", Construct: "every recovered error is located"},
+		{Name: "emit files no location for jumps", File: "compiler/compiler.go", Old: "\tvar loc file.Location\n\tif len(c.nodes) > 0 {", New: "\tif op == OpJumpIfTrue || op == OpJumpIfFalse {\n\t\treturn current\n\t}\n\tvar loc file.Location\n\tif len(c.nodes) > 0 {", Rule: "R13.6", Construct: "location filed on every path"},
 	}
 }
